@@ -444,8 +444,9 @@ func (fv *FuncVC) appendBuiltin(v ssa.Value, cc *ssa.CallCommon, pos token.Pos) 
 	} else {
 		ks := idxSort(fv.Mode)
 		z := fv.ilit(0)
-		fv.assert(fmt.Sprintf("(forall ((k %s)) (=> (and %s %s) (= %s %s)))", ks, fv.ile(z, "k"), fv.ilt("k", fv.lenOf(d)), fv.elemAt(r, "k"), fv.elemAt(d, "k")))
-		fv.assert(fmt.Sprintf("(forall ((k %s)) (=> (and %s %s) (= %s %s)))", ks, fv.ile(z, "k"), fv.ilt("k", fv.lenOf(x)), fv.elemAt(r, fv.iadd(fv.lenOf(d), "k")), fv.elemAt(x, "k")))
+		_ = ks
+		fv.assert(fv.forallCopy(r, z, d, z, fv.lenOf(d)))
+		fv.assert(fv.forallCopy(r, fv.lenOf(d), x, z, fv.lenOf(x)))
 	}
 	if d.Sort.Kind == KBytes {
 		fv.ghostAppend(r, d, x, cc.Args[1], pos)
@@ -467,8 +468,9 @@ func (fv *FuncVC) copyBuiltin(v ssa.Value, cc *ssa.CallCommon, pos token.Pos) {
 	ks := idxSort(fv.Mode)
 	z := fv.ilit(0)
 	fv.assert(smtAnd(app("=", fv.lenOf(nd), fv.lenOf(d)), app("=", fv.offOf(nd), fv.offOf(d)), app("=", fv.capOf(nd), fv.capOf(d)), app("=", fv.baseOf(nd), fv.baseOf(d)),
-		fmt.Sprintf("(forall ((k %s)) (=> (and %s %s) (= %s %s)))", ks, fv.ile(z, "k"), fv.ilt("k", n.S), fv.elemAt(nd, "k"), fv.elemAt(x, "k")),
-		fmt.Sprintf("(forall ((k %s)) (=> (and %s %s) (= %s %s)))", ks, fv.ile(n.S, "k"), fv.ilt("k", fv.lenOf(d)), fv.elemAt(nd, "k"), fv.elemAt(d, "k"))))
+		fv.forallCopy(nd, z, x, z, n.S),
+		fv.forallCopy(nd, n.S, d, n.S, fv.isub(fv.lenOf(d), n.S))))
+	_ = ks
 	fv.cur.slices[cc.Args[0]] = nd
 	if v != nil {
 		fv.vals[v] = Val{T: n}
